@@ -157,7 +157,7 @@ fn c02_bootstrap_features_smallrng() {
     kani::cover!(cols == 4);
 }
 
-// @unit class=bounded tier=thorough mem=light bound="n=3,p=3,(1 sample,1 feature) per draw,SmallRng seeds 0..3" timeout=600 fns=linfa::dataset::DatasetBase::bootstrap
+// @unit class=bounded tier=thorough mem=heavy bound="n=3,p=3,(1 sample,1 feature) per draw,SmallRng seeds 0..3" timeout=600 fns=linfa::dataset::DatasetBase::bootstrap
 #[kani::proof]
 #[kani::unwind(9)]
 #[kani::stub(alloc::fmt::format, fmt_stub)]
